@@ -294,7 +294,23 @@ func (s *Solver) Model(vars []*Term) map[string]uint64 {
 func tokenize(s string) []string {
 	var toks []string
 	cur := ""
+	quoted := false
 	for _, c := range s {
+		// |quoted symbols| may contain spaces and parentheses: one token
+		if quoted {
+			cur += string(c)
+			if c == '|' {
+				quoted = false
+				toks = append(toks, cur)
+				cur = ""
+			}
+			continue
+		}
+		if c == '|' && cur == "" {
+			quoted = true
+			cur = "|"
+			continue
+		}
 		switch c {
 		case '(', ')':
 			if cur != "" {
